@@ -170,6 +170,10 @@ def run(ctx):
     tfam = g9gen.typeexpr_family()
     for cid, files in tfam:
         cases.append(("det:" + cid, files, "", "det-typeexpr"))
+    # every statement kind in its minimal / variable-less form with an ill-typed operand: the error must carry a position inside the file
+    pfam = g9gen.position_family()
+    for cid, files in pfam:
+        cases.append(("det:" + cid, files, "", "det-position"))
     for k in range(ctx.n(40, 300)):        # ... and some of them as bases of the mutants
         cid, files = tfam[ctx.rng.below(len(tfam))]
         bases.append(("typeexpr-base:%d:%s" % (k, cid), files))
@@ -254,7 +258,10 @@ def run(ctx):
               samples=[{"scenario": scen[9], "impl": out1.splitlines()[9]},
                        {"case": cases[len(det_cases()) + 3][0], "result": res.get(len(det_cases()) + 3)},
                        {"case": cases[-1][0], "mutation": cases[-1][3], "result": res.get(len(cases) - 1)}],
-              rule="deterministic type-expression family: %d mixed packages (g.go declares Named, Str, Box[T], Pair[K,V], Triple[A,B,C], Iface; the XGo file uses "
+              rule="deterministic position family: %d one-statement programs (30 statement kinds - range without / with variables, for-in, comprehension, "
+                   "if, for, switch, type switch, send, receive, select, ++, assignment, call, go, defer, index, slice, deref, return, len, binary - x 8 "
+                   "ill-typed operands: struct, float variable and constant, func, bool, nil, pointer, undefined), strict oracle: every error has a position "
+                   "inside the file | deterministic type-expression family: %d mixed packages (g.go declares Named, Str, Box[T], Pair[K,V], Triple[A,B,C], Iface; the XGo file uses "
                    "each of 27 type shapes - named, pointer, qualified, generic instances with 1/2/3 arguments, nested and pointer instances, array, slice, "
                    "map, chan, func, struct, ill-formed instances - in each of 22 positions: embedded (4 forms, .gox field block), field, param, result, "
                    "var, conversion, composite literal, new, assertion, type switch, alias, defined type, element, func literal, method) | K-diff: %d scenarios (%d fixed + seeded; panic or error injected at gogen.NewPackage / class loading / imports / "
@@ -266,7 +273,7 @@ def run(ctx):
                    "(kind parser-panic) is outside C07 (not parser-accepted input; C13); a panic of gogen's WriteTo after NewPackage "
                    "returned err == nil (kind writeto-panic) is an invalid output and is accounted to C06; WriteTo is not called on "
                    "packages built from partial ASTs."
-                   % (len(tfam), len(scen), len(FIXED_SCENARIOS) + 1, len(cases), len(det_cases()) + 1 + len(tfam), len(bases),
+                   % (len(pfam), len(tfam), len(scen), len(FIXED_SCENARIOS) + 1, len(cases), len(det_cases()) + 1 + len(tfam) + len(pfam), len(bases),
                       sum(1 for b in bases if b[0].startswith("corpus:")), nmut),
               explanation="kernel theorem over the recover skeleton + K-gen audit of recover sites + K-diff with injected panics + mutation fuzz",
               scenario_result_histogram=sshape, fuzz_result_kind_histogram=kinds, mutation_kind_histogram=muts,
